@@ -143,6 +143,32 @@ var Catalogue = []Item{
 	{"ptr.compare", "func pcm%d() uint64 {\n\ta := new(uint64)\n\tb := new(uint64)\n\tc := a\n\tvar r uint64 = 0\n\tif a == b {\n\t\tr = r + 1\n\t}\n\tif a == c {\n\t\tr = r + 10\n\t}\n\treturn r\n}\n", "return pcm%d()", "uint64"},
 	{"const.expr-typed", "const cet%da uint64 = 1 << 40\n\nconst cet%db uint32 = 1<<32 - 1\n\nfunc cet%d() uint64 {\n\treturn cet%da + uint64(cet%db)\n}\n", "return cet%d()", "uint64"},
 	{"const.untyped-global", "const cug%d = 7\n\nfunc cug%df(x uint32) uint32 {\n\treturn x + cug%d\n}\n", "return cug%df(4294967295)", "uint32"},
+	{"string.backslash", "func sbk%d() uint64 {\n\ts := \"a\\\\b\"\n\treturn uint64(len(s))\n}\n", "return sbk%d()", "uint64"},
+	{"string.tab", "func stb%d() uint64 {\n\ts := \"a\\tb\" + \"c\"\n\tb := []byte(s)\n\treturn uint64(len(s))*1000 + uint64(b[1])\n}\n", "return stb%d()", "uint64"},
+	{"string.raw-backslash", "func srb%d() uint64 {\n\ts := `a\\nb`\n\treturn uint64(len(s))\n}\n", "return srb%d()", "uint64"},
+	{"string.unicode-escape", "func sue%d() uint64 {\n\ts := \"caf\\u00e9\"\n\treturn uint64(len(s))\n}\n", "return sue%d()", "uint64"},
+	{"string.quote-escape", "func sqe%d() uint64 {\n\ts := \"5\\\" nail\"\n\treturn uint64(len(s))\n}\n", "return sqe%d()", "uint64"},
+	{"string.hex-escape", "func she%d() uint64 {\n\ts := \"a\\x22b\\x00c\"\n\treturn uint64(len(s))\n}\n", "return she%d()", "uint64"},
+	{"switch.break-in-loop", "func sbl%d(n uint64) uint64 {\n\tvar t uint64 = 0\n\tfor i := uint64(0); i < n; i++ {\n\t\tt = t + 10\n\t\tswitch i {\n\t\tcase 1:\n\t\t\tbreak\n\t\tdefault:\n\t\t\tt = t + 1\n\t\t}\n\t}\n\treturn t\n}\n", "return sbl%d(4)", "uint64"},
+	{"switch.break-under-if", "func sbi%d(n uint64) uint64 {\n\tvar t uint64 = 0\n\tfor i := uint64(0); i < n; i++ {\n\t\tswitch {\n\t\tcase i > 0:\n\t\t\tif i == 2 {\n\t\t\t\tbreak\n\t\t\t}\n\t\t\tt = t + i\n\t\t}\n\t\tt = t + 100\n\t}\n\treturn t\n}\n", "return sbi%d(4)", "uint64"},
+	{"switch.continue-in-loop", "func scl%d(n uint64) uint64 {\n\tvar t uint64 = 0\n\tfor i := uint64(0); i < n; i++ {\n\t\tswitch i {\n\t\tcase 1:\n\t\t\tcontinue\n\t\t}\n\t\tt = t + i + 10\n\t}\n\treturn t\n}\n", "return scl%d(4)", "uint64"},
+	{"switch.default-first", "func sdf%d(x uint64) uint64 {\n\tswitch x {\n\tdefault:\n\t\treturn 9\n\tcase 1:\n\t\treturn 1\n\tcase 2, 3:\n\t\treturn 23\n\t}\n}\n", "return sdf%d(3)*100 + sdf%d(7)", "uint64"},
+	{"switch.tag-effect-once", "func ste%dh(p *uint64) uint64 {\n\t*p = *p + 1\n\treturn *p\n}\n\nfunc ste%d() uint64 {\n\tp := new(uint64)\n\tvar r uint64 = 0\n\tswitch ste%dh(p) {\n\tcase 5:\n\t\tr = 50\n\tcase 1:\n\t\tr = 10\n\tcase 2:\n\t\tr = 20\n\t}\n\treturn r + *p\n}\n", "return ste%d()", "uint64"},
+	{"results.blank-named", "func rbn%d(c bool) (_ uint64, _ bool) {\n\tif c {\n\t\treturn 5, true\n\t}\n\treturn\n}\n", "a, b := rbn%d(false)\n\tif b {\n\t\treturn 100\n\t}\n\treturn a + 7", "uint64"},
+	{"results.named-shadowed", "func rns%d(x uint64) (r uint64) {\n\tr = x\n\tif x > 2 {\n\t\tr := x * 2\n\t\t_ = r\n\t}\n\treturn r\n}\n", "return rns%d(5)", "uint64"},
+	{"for.init-assign-param", "func fia%d(n uint64) uint64 {\n\tvar t uint64 = 0\n\tfor n = 2; n < 5; n++ {\n\t\tt = t + n\n\t}\n\treturn t + n\n}\n", "return fia%d(9)", "uint64"},
+	{"for.init-assign-var", "func fiv%d() uint64 {\n\tvar i uint64 = 7\n\tvar t uint64 = 0\n\tfor i = 1; i < 4; i++ {\n\t\tt = t + i\n\t}\n\treturn t*10 + i\n}\n", "return fiv%d()", "uint64"},
+	{"for.post-assign-other", "func fpo%d() uint64 {\n\tvar j uint64 = 0\n\tvar t uint64 = 0\n\tfor i := uint64(0); i < 3; j = j + 2 {\n\t\ti = i + 1\n\t\tt = t + i\n\t}\n\treturn t + j\n}\n", "return fpo%d()", "uint64"},
+	{"closure.loopvar-modified", "func clm%d() uint64 {\n\tvar t uint64 = 0\n\tfor i := uint64(0); i < 6; i++ {\n\t\tf := func() {\n\t\t\ti = i + 1\n\t\t}\n\t\tif i == 2 {\n\t\t\tf()\n\t\t}\n\t\tt = t + i\n\t}\n\treturn t\n}\n", "return clm%d()", "uint64"},
+	{"closure.loopvar-captured-later", "func clc%d() uint64 {\n\tfs := make([]func() uint64, 0)\n\tfor i := uint64(0); i < 3; i++ {\n\t\tfs = append(fs, func() uint64 {\n\t\t\treturn i\n\t\t})\n\t}\n\tvar t uint64 = 0\n\tfor _, f := range fs {\n\t\tt = t*10 + f()\n\t}\n\treturn t\n}\n", "return clc%d()", "uint64"},
+	{"ptr.to-ptr-struct", "type pps%ds struct {\n\ta uint64\n\tb uint64\n}\n\nfunc pps%d() uint64 {\n\tvar q *pps%ds = &pps%ds{a: 1, b: 2}\n\tr := &q\n\tx := (*r).a\n\t*r = &pps%ds{a: 10, b: 20}\n\treturn x*1000 + q.a + (*r).b\n}\n", "return pps%d()", "uint64"},
+	{"ptr.to-ptr-struct-load", "type ppl%ds struct {\n\ta uint64\n}\n\nfunc ppl%dh(r **ppl%ds) *ppl%ds {\n\treturn *r\n}\n\nfunc ppl%d() uint64 {\n\tvar q *ppl%ds = &ppl%ds{a: 7}\n\tp := ppl%dh(&q)\n\tp.a = p.a + 1\n\treturn q.a\n}\n", "return ppl%d()", "uint64"},
+	{"range.no-key", "func rnk%d() uint64 {\n\txs := make([]uint64, 3)\n\tvar n uint64 = 0\n\tfor range xs {\n\t\tn = n + 1\n\t}\n\treturn n\n}\n", "return rnk%d()", "uint64"},
+	{"range.assign-existing", "func rae%d() uint64 {\n\txs := make([]uint64, 3)\n\txs[2] = 5\n\tvar i uint64\n\tvar v uint64\n\tvar k int\n\tfor k, v = range xs {\n\t\ti = i + uint64(k)\n\t}\n\treturn i*10 + v\n}\n", "return rae%d()", "uint64"},
+	{"append.multi", "func apm%dx() uint64 {\n\ts := make([]uint64, 0)\n\ts = append(s, 1, 2, 3)\n\treturn uint64(len(s))*10 + s[2]\n}\n", "return apm%dx()", "uint64"},
+	{"map.commaok-assign", "func mca%d() uint64 {\n\tm := make(map[uint64]uint64)\n\tm[1] = 5\n\tvar v uint64\n\tvar ok bool\n\tv, ok = m[1]\n\tif ok {\n\t\treturn v\n\t}\n\treturn 0\n}\n", "return mca%d()", "uint64"},
+	{"type.grouped", "type (\n\ttga%d struct {\n\t\tx uint64\n\t}\n\ttgb%d struct {\n\t\ty uint64\n\t}\n)\n\nfunc tg%dg() uint64 {\n\treturn tga%d{x: 1}.x + tgb%d{y: 2}.y\n}\n", "return tg%dg()", "uint64"},
+	{"goto.loop-tail", "func glt%d(n uint64) uint64 {\n\tvar t uint64 = 0\n\tfor i := uint64(0); i < n; i++ {\n\t\tt = t + i\n\t\tgoto next\n\tnext:\n\t}\n\treturn t\n}\n", "return glt%d(3)", "uint64"},
 	{"generic.func", "func gf%d[T any](x T, y T, first bool) T {\n\tif first {\n\t\treturn x\n\t}\n\treturn y\n}\n", "return gf%d[uint64](3, 4, false)", "uint64"},
 	{"init.func", "var in%dv uint64\n\nfunc in%d() uint64 {\n\treturn in%dv\n}\n", "return in%d()", "uint64"},
 	{"blank.assign-call", "func ba%dh(p *uint64) uint64 {\n\t*p = 3\n\treturn 1\n}\n\nfunc ba%d() uint64 {\n\tp := new(uint64)\n\t_ = ba%dh(p)\n\treturn *p\n}\n", "return ba%d()", "uint64"},
@@ -152,7 +178,7 @@ var Catalogue = []Item{
 // RejectedAtPin: catalogue constructs that the pinned translator answers with a conversion error. They are the
 // boundary of the accepted subset: a translator that starts to accept one of them has enlarged the subset, and the
 // construct then falls under "accepted programs keep their meaning" (C01) as well as under C02.
-var RejectedAtPin = map[string]bool{"array": true, "assign.complex-lvalue": true, "assign.define-captured": true, "assign.define-in-loop": true, "assign.define-local": true, "assign.param": true, "assign.swap": true, "break.nested-elseless": true, "const.iota": true, "const.untyped-global": true, "continue.nested-elseless": true, "defer": true, "defer.early-return": true, "defer.lifo": true, "defer.return-order": true, "define.multi": true, "global.var-mutated": true, "go.args": true, "goto": true, "if.init": true, "if.init-shadow": true, "if.init-then-use-outer": true, "incdec.elem": true, "incdec.field": true, "init.func": true, "int.signed": true, "label.break-outer": true, "label.continue-outer": true, "literal.huge": true, "literal.huge2": true, "lookalike.len": true, "map.literal": true, "method.on-named-slice": true, "named-results": true, "named-results.explicit": true, "nil.func": true, "op.andnot": true, "op.unary-minus": true, "op.unary-plus": true, "opassign.andnot": true, "opassign.div": true, "opassign.mul": true, "opassign.rem": true, "opassign.shl": true, "opassign.shr": true, "range.int": true, "return.else-after-early": true, "return.elseif-chain-elseless": true, "return.in-loop": true, "return.nested-elseless": true, "return.nested-elseless-loop": true, "slice.3index": true, "slice.full": true, "slice.literal-multi": true, "slice.subslice-cap": true, "string.index": true, "string.range": true, "struct.anonymous": true, "struct.embedded": true, "struct.unkeyed": true, "switch": true, "switch.fallthrough": true, "switch.tagless": true}
+var RejectedAtPin = map[string]bool{"append.multi": true, "array": true, "assign.complex-lvalue": true, "assign.define-captured": true, "assign.define-in-loop": true, "assign.define-local": true, "assign.param": true, "assign.swap": true, "break.nested-elseless": true, "closure.loopvar-captured-later": true, "const.iota": true, "const.untyped-global": true, "continue.nested-elseless": true, "defer": true, "defer.early-return": true, "defer.lifo": true, "defer.return-order": true, "define.multi": true, "for.init-assign-param": true, "for.init-assign-var": true, "global.var-mutated": true, "go.args": true, "goto": true, "goto.loop-tail": true, "if.init": true, "if.init-shadow": true, "if.init-then-use-outer": true, "incdec.elem": true, "incdec.field": true, "init.func": true, "int.signed": true, "label.break-outer": true, "label.continue-outer": true, "literal.huge": true, "literal.huge2": true, "lookalike.len": true, "map.literal": true, "method.on-named-slice": true, "named-results": true, "named-results.explicit": true, "nil.func": true, "op.andnot": true, "op.unary-minus": true, "op.unary-plus": true, "opassign.andnot": true, "opassign.div": true, "opassign.mul": true, "opassign.rem": true, "opassign.shl": true, "opassign.shr": true, "range.assign-existing": true, "range.int": true, "results.blank-named": true, "results.named-shadowed": true, "return.else-after-early": true, "return.elseif-chain-elseless": true, "return.in-loop": true, "return.nested-elseless": true, "return.nested-elseless-loop": true, "slice.3index": true, "slice.full": true, "slice.literal-multi": true, "slice.subslice-cap": true, "string.hex-escape": true, "string.index": true, "string.quote-escape": true, "string.range": true, "struct.anonymous": true, "struct.embedded": true, "struct.unkeyed": true, "switch": true, "switch.break-in-loop": true, "switch.break-under-if": true, "switch.continue-in-loop": true, "switch.default-first": true, "switch.fallthrough": true, "switch.tag-effect-once": true, "switch.tagless": true, "type.grouped": true}
 
 // Imports lists the standard-library imports an item needs (found by inspection of its text).
 func (it Item) Imports() []string {
